@@ -1,4 +1,4 @@
 (def load-file (fn (f)
                         (eval
                             (read-string
-                                (str ";; $MODULE " f "\n(do " (slurp f) " nil)")))))
+                                (str ";; $MODULE " f "\n(do " (slurp f) "\nnil)")))))
